@@ -11,14 +11,20 @@ import (
 )
 
 func SafeCmdExecution(executable string, args []string, timeout time.Duration) (string, error) {
-	if _, err := CheckFilePermissionsForExecution(executable); err != nil {
+	// check the file that will actually be executed: a name without a directory is
+	// looked up in $PATH by the operating system, not in the working directory
+	path, err := exec.LookPath(executable)
+	if err != nil {
+		return "", fmt.Errorf("cannot execute %s: %s", executable, err)
+	}
+	if _, err := CheckFilePermissionsForExecution(path); err != nil {
 		return "", fmt.Errorf("cannot execute %s: %s", executable, err)
 	}
 
 	ctx, cancel := context.WithTimeout(context.Background(), timeout)
 	defer cancel()
 
-	cmd := exec.CommandContext(ctx, executable, args...)
+	cmd := exec.CommandContext(ctx, path, args...)
 	// don't wait forever for child processes of the command that keep its output open
 	cmd.WaitDelay = 100 * time.Millisecond
 	out, err := cmd.Output()
